@@ -49,20 +49,32 @@ Definition obs_body (c : scase) : list fop := match c_obs (s_l c) with Some (b, 
 Definition obs_numlocals (c : scase) : N :=
   match c_obs (s_l c) with Some (_, g) => fold_left (fun a x => (a + fst x)%N) g 0%N | None => 0%N end.
 
+(* A plain `alternate` that is itself neutral -- probe code followed by the replaced instruction re-emitted -- is given its
+   meaning by desugaring on the specification side: the instruction is replaced by a nop and the alternate code is run
+   after its before-probes (the generator places such alternates on non-control instructions only; an alternate on a
+   structural instruction makes the original unparsable here and the case fails with VBad 10). *)
+Definition alt_desugared_body (fb : list (fop * flags)) (body : list fop) : list fop :=
+  map (fun p => match f_alt (flags_fn fb (fst p)) with Some _ => FOther T_NOP | None => snd p end) (index_from 0 body).
+
 Definition check_one (keep : Z -> bool) (c : scase) (args : list Z) : verdict :=
   let l := s_l c in
-  match parse_body (c_body l), parse_body (obs_body c), flagged_body c with
-  | Some (t, fe), Some (t', fe'), Some fb =>
-      (* the code files the entry probes *after* the user's before-probes of instruction 0 *)
-      let flags_at i := let f := flags_fn fb i in if Nat.eqb i 0 then w_before (c_entry l) f else f in
-      let c0 := mkC (args ++ zeros (c_numlocals l)) (0%Z :: repeat 0%Z MEM_CELLS) [] [] in
-      let c0' := mkC (args ++ zeros (obs_numlocals c)) (0%Z :: repeat 0%Z MEM_CELLS) [] [] in
-      same_result keep (s_nres c)
-        (exec_fn (ftypes_of c) flags_at [] (c_exit l) true FUEL t fe c0)
-        (exec_fn (ftypes_of c) (fun _ => no_flags) [] [] false FUEL t' fe' c0')
-  | None, _, _ => VBad 10
-  | _, None, _ => VBad 11
-  | _, _, None => VBad 12
+  match flagged_body c with
+  | Some fb =>
+    match parse_body (alt_desugared_body fb (c_body l)), parse_body (obs_body c) with
+    | Some (t, fe), Some (t', fe') =>
+        (* the code files the entry probes *after* the user's before-probes of instruction 0 *)
+        let flags_at i := let f := flags_fn fb i in
+                          let f1 := if Nat.eqb i 0 then w_before (c_entry l) f else f in
+                          match f_alt f with Some code => w_before code f1 | None => f1 end in
+        let c0 := mkC (args ++ zeros (c_numlocals l)) (0%Z :: repeat 0%Z MEM_CELLS) [] [] in
+        let c0' := mkC (args ++ zeros (obs_numlocals c)) (0%Z :: repeat 0%Z MEM_CELLS) [] [] in
+        same_result keep (s_nres c)
+          (exec_fn (ftypes_of c) flags_at [] (c_exit l) true FUEL t fe c0)
+          (exec_fn (ftypes_of c) (fun _ => no_flags) [] [] false FUEL t' fe' c0')
+    | None, _ => VBad 10
+    | _, None => VBad 11
+    end
+  | None => VBad 12
   end.
 
 Definition worst (a b : verdict) : verdict :=
